@@ -1,4 +1,4 @@
 #!/bin/bash
 # usage: tools/confirm_batch.sh C17 C11 ...  (both changes of each, 6 in parallel; a property's two changes run sequentially: same worktree)
 cd /verif
-printf "%s\n" "$@" | xargs -P 6 -I{} bash -c 'tools/confirm_mutation.sh {} 1 2>&1 | grep -v "^WARNING conda" | tail -2; tools/confirm_mutation.sh {} 2 2>&1 | grep -v "^WARNING conda" | tail -2'
+printf "%s\n" "$@" | xargs -P 6 -I{} bash -c 'for k in ${KS:-1 2}; do tools/confirm_mutation.sh {} $k 2>&1 | grep -v "^WARNING conda" | tail -2; done'
